@@ -28,17 +28,17 @@ DESIGN_REF = "DESIGN.md §3 C08"
 ASSUMPTIONS = ["renaming candidates exclude names mentioned in macro bodies / code arguments (dynamic call-site resolution is as specified)"]
 
 PROFILE = progen.Profile(shadowing=True, incbin=False, ascii=False, reloc_ram=False, reloc_rom=False, branches=False, unsized_literals=False,
-                         max_stmts=14, max_depth=4, call_weight=2, loop_weight=1, if_weight=1, code_args=False, recursion=False, scope_weight=4, block_weight=4)
+                         max_stmts=14, max_depth=4, call_weight=2, loop_weight=1, if_weight=2, code_args=False, recursion=False, scope_weight=4, block_weight=4, lc_prob=0.3)
 
 
 def selftest() -> None:
     refasm.selftest()
     ir = [{"k": "org", "a": 0x8000}, {"k": "label", "n": "lb_a"}, {"k": "scope", "n": "sc_1", "b": [{"k": "label", "n": "lb_a"}, {"k": "data", "d": "dl", "es": [["id", "lb_a"]]}]},
           {"k": "data", "d": "dl", "es": [["id", "sc_1.lb_a"], ["id", "lb_a"]]}]
-    r = twins.rename_in_scope(ir, ((2, "b"),), "lb_a", "lb_zz", "sc_1")
-    assert r[2]["b"][0]["n"] == "lb_zz" and r[2]["b"][1]["es"][0] == ["id", "lb_zz"] and r[3]["es"] == [["id", "sc_1.lb_zz"], ["id", "lb_a"]] and r[1]["n"] == "lb_a"
-    r = twins.rename_in_scope(ir, (), "lb_a", "lb_zz", None)
-    assert r[1]["n"] == "lb_zz" and r[2]["b"][0]["n"] == "lb_a" and r[2]["b"][1]["es"][0] == ["id", "lb_a"] and r[3]["es"][1] == ["id", "lb_zz"]
+    r = twins.rename_by_model(ir, lambda c: c[2]["b"][0], "lb_zz")
+    assert r[2]["b"][0]["n"] == "lb_zz" and r[2]["b"][1]["es"][0] == ["id", "lb_zz"] and r[3]["es"] == [["id", "sc_1.lb_zz"], ["id", "lb_a"]] and r[1]["n"] == "lb_a", r
+    r = twins.rename_by_model(ir, lambda c: c[1], "lb_zz")
+    assert r[1]["n"] == "lb_zz" and r[2]["b"][0]["n"] == "lb_a" and r[2]["b"][1]["es"][0] == ["id", "lb_a"] and r[3]["es"][1] == ["id", "lb_zz"], r
 
 
 def _build(rng):
@@ -53,6 +53,43 @@ def strategy(tier):
 
 def hyp_examples(tier):
     return 8000 if tier == "quick" else 120000
+
+
+def enum_units(tier, seed):
+    """fixed points: a label named like an outer := constant, referenced from a scope nested below the label's scope in
+    the places that are evaluated at expansion time (the outer constant must not leak in)"""
+    L = lambda v: ["lit", v, "x"]
+    db = lambda *e: {"k": "data", "d": "db", "es": list(e)}
+    cases = []
+    for outer_val in (5, 0):
+        for ctx in ("block", "loop", "named", "block-block"):
+            for use in ("if", "macro-arg", "dl", "if-else-label"):
+                if use == "if":
+                    inner = [{"k": "if", "c": ["id", "kx_a"], "t": [db(L(1))], "e": [db(L(2))]}]
+                elif use == "macro-arg":
+                    inner = [{"k": "call", "n": "m_p", "args": [["bin", "&", ["id", "kx_a"], L(0xFF)]]}]
+                elif use == "dl":
+                    inner = [{"k": "data", "d": "dl", "es": [["id", "kx_a"]]}]
+                else:
+                    inner = [{"k": "if", "c": ["bin", "+", ["id", "kx_a"], L(1)], "t": [db(L(3))], "e": None}, db(["bin", "&", ["id", "kx_a"], L(0xFF)])]
+                if ctx == "block":
+                    deep = [{"k": "block", "b": inner}]
+                elif ctx == "loop":
+                    deep = [{"k": "for", "v": "i_0", "lo": ["lit", 0, "d"], "hi": ["lit", 2, "d"], "b": inner}]
+                elif ctx == "named":
+                    deep = [{"k": "scope", "n": "sc_in", "b": inner}]
+                else:
+                    deep = [{"k": "block", "b": [{"k": "block", "b": inner}]}]
+                ir = [{"k": "const", "n": "kx_a", "e": L(outer_val), "eager": True}, {"k": "org", "a": 0x018001},
+                      {"k": "macro", "n": "m_p", "ps": ["p_px"], "b": [db(["id", "p_px"])]},
+                      {"k": "block", "b": [db(L(0xEE)), {"k": "label", "n": "kx_a"}] + deep + [db(L(0xDD))]},
+                      db(["bin", "&", ["id", "kx_a"], L(0xFF)])]
+                cases.append({"rom": "low", "files": {}, "ir": ir, "twin_seed": 1})
+    return {"units": [{"cases": cases}], "exhaustive": False}
+
+
+def unit_cases(unit):
+    return unit["cases"]
 
 
 def _name_stats(ir):
@@ -121,10 +158,33 @@ def run_case(case) -> Outcome:
     if cands:
         path, name, scope_name, parent_path = rng.choice(cands)
         new = "lb_renamed"
-        twin = twins.rename_in_scope(case_ir, path, name, new, scope_name, parent_path)
+
+        def locate(ir_copy, path=path, name=name):
+            # the label statement in the scope at `path` (also inside its inline .if / .include bodies)
+            def find(stmts):
+                for st in stmts:
+                    if st["k"] == "label" and st["n"] == name:
+                        return st
+                    if st["k"] == "if":
+                        r_ = find(st["t"]) or (find(st["e"]) if st.get("e") is not None else None)
+                        if r_:
+                            return r_
+                    if st["k"] == "include":
+                        r_ = find(st["b"])
+                        if r_:
+                            return r_
+                return None
+            return find(twins.navigate(ir_copy, path))
+
+        twin = twins.rename_by_model(case_ir, locate, new, rom=case["rom"], files={k: driver.file_bytes(v) for k, v in files.items()}, usermap=case.get("usermap"))
+        if twin is None:
+            twin = case_ir
+            out.labels.append("twin:rename-skipped")
         tsrc, tr = asm(twin)
         out.labels.append("twin:rename")
-        if not tr.accepted:
+        if twin is case_ir:
+            pass
+        elif not tr.accepted:
             out.bad("rename:twin-rejected", case, f"renaming {name} -> {new} in scope path {path} made the program fail: {tr['exc']} {tr.failure_text[:200]}\n--- original\n{src}\n--- renamed\n{tsrc}")
         else:
             if driver.flatten(tr["blocks"]) != base_flat:
